@@ -13,7 +13,7 @@ import threading
 from pathlib import Path
 
 VERIF = Path(__file__).resolve().parents[1]
-ALSO = {"C07-18": ["C05"], "C11-4": ["C09"], "C03-14": ["C07"], "C11-10": ["C09"], "C14-7": ["C03"], "C19-9": ["C04"], "C01-3": ["C06"], "C02-3": ["C06"], "C05-1": ["C06"], "C05-3": ["C06"]}
+ALSO = {"C14-20": ["C02"], "C07-18": ["C05"], "C11-4": ["C09"], "C03-14": ["C07"], "C11-10": ["C09"], "C14-7": ["C03"], "C19-9": ["C04"], "C01-3": ["C06"], "C02-3": ["C06"], "C05-1": ["C06"], "C05-3": ["C06"]}
 
 
 def one(sid, slot):
